@@ -160,6 +160,20 @@ def strings(tier, seed, pvl):
     # values: every short token sequence in value position
     VAL = ["(", ")", "{", "}", ",", "1", "'x'", "<m>"] + \
         (["a", "=", ";"] if tier == "thorough" else [])
+    # braces and per-cent signs inside quoted strings and units (they end up in
+    # error messages), in value position and inside a block
+    for b in ("'{}'", '"{x}"', '"see {section 2.1}"', "<{ms}", "<{}>", '"{0}"', "'%s'",
+              '"100%"', "'{a.b}'", '"{!r}"', "'{:>9}'"):
+        for form in ("a=1{}\n", "a = 1 {}\n", "a = (1 {})\n", "a = {}\n", "{} = 1\n",
+                     "GROUP = g\n {}\nEND_GROUP\n", "GROUP = g {}\n", "a = 1\n{}\nEND\n",
+                     "GROUP = g\n a = 1\nEND_OBJECT {}\n", "a = 2 <m> {}\n"):
+            yield "braces-in-tokens", form.format(b)
+    # long words that are almost identifiers
+    for n in (20, 28, 34, 48):
+        w = ("ORBITERCAMERAMOSAICNORTHPOLARREGION2009A" * 2)[:n]
+        for tail in (".IMG", "_", "-x", "/y", ":z", "__", ""):
+            yield "long-words", f"PRODUCT_ID = {w}{tail}\nEND\n"
+            yield "long-words", f"{w}{tail} = 1\n"
     for n in range(1, 6):
         for tup in itertools.product(VAL, repeat=n):
             yield "value-context", "k = " + " ".join(tup) + "\nj = 2\n"
@@ -316,7 +330,7 @@ def finish_kwargs(rec, tier):
                            "strings[generated-truncation]",
                            "strings[corpus-splice]", "strings[value-context]",
                            "strings[atom-pairs]", "strings[extreme-numbers]",
-                           "strings[big-vocabulary]", "strings[keyword-lookalikes]", "strings[lone-surrogates]",
+                           "strings[big-vocabulary]", "strings[keyword-lookalikes]", "strings[lone-surrogates]", "strings[braces-in-tokens]", "strings[long-words]",
                            "loads_through_a_long_lived_parser",
                            "outcome[default+Decimal][ok]",
                            "outcome[default][LexerError]", "outcome[PVL][ok]"),
